@@ -18,7 +18,7 @@ def gen_objects(ch, dom, min_n=2, max_n=5):
     objects = []
     for i in range(ch.int(min_n, max_n)):
         t = ch.choice(tnames + ["object"]) if tnames and not ch.flag(0.1) else "object"
-        objects.append([f"o{i}", t])
+        objects.append([["o1", "o10", "o2", "o20", "o3"][i], t])
     return objects
 
 
